@@ -912,8 +912,9 @@ class ArgumentParser(ParserDeprecations, ActionsContainer, ArgumentLinking, argp
         check_overwrite(path_fc)
 
         if not multifile:
+            dump = self.dump(cfg, **dump_kwargs)  # type: ignore[arg-type]
             with open(path_fc.absolute, "w") as f:
-                f.write(self.dump(cfg, **dump_kwargs))  # type: ignore[arg-type]
+                f.write(dump)
 
         else:
             cfg = cfg.clone()
@@ -922,6 +923,7 @@ class ArgumentParser(ParserDeprecations, ActionsContainer, ArgumentLinking, argp
             if not skip_validation:
                 with parser_context(load_value_mode=self.parser_mode):
                     self.validate(strip_meta(cfg), branch=branch)
+            self.dump(cfg, **{**dump_kwargs, "skip_validation": True})  # type: ignore[arg-type]  # fail before writing any file
 
             def save_paths(cfg):
                 for key in cfg.get_sorted_keys():
@@ -952,8 +954,9 @@ class ArgumentParser(ParserDeprecations, ActionsContainer, ArgumentLinking, argp
             with change_to_path_dir(path_fc), parser_context(parent_parser=self):
                 save_paths(cfg)
             dump_kwargs["skip_validation"] = True
+            dump = self.dump(cfg, **dump_kwargs)  # type: ignore[arg-type]
             with open(path_fc.absolute, "w") as f:
-                f.write(self.dump(cfg, **dump_kwargs))  # type: ignore[arg-type]
+                f.write(dump)
 
     ## Methods related to defaults ##
 
